@@ -29,6 +29,16 @@ type c18Op struct {
 	Off    int64  `json:"off,omitempty"`
 	Whence int    `json:"whence,omitempty"`
 	Ans    c18Ans `json:"ans"`
+	// Form: a buffer of length 0 is handed over as gen.EmptyBytes(Form): nil (0), non-nil, with spare capacity, empty tail
+	Form int `json:"empty_form,omitempty"`
+}
+
+// buf is the buffer an operation hands over.
+func (op c18Op) buf(salt int) []byte {
+	if op.Len == 0 {
+		return gen.EmptyBytes(op.Form)
+	}
+	return c18Buf(op.Len, salt)
 }
 
 type c18Case struct {
@@ -54,7 +64,7 @@ func init() {
 		ID:     "C18",
 		Word32: true,
 		Level:  "model_checking",
-		Rule: "E2+E3: for every section (base in {0,5,2^40}, n in 0..4, thorough 0..7) a breadth-first search over the cursor states reachable inside the window [0, n+6] (observed through Seek(0, SeekCurrent)); from EVERY state EVERY operation of the alphabet {Write(len 0..6), WriteAt(len 0..6, off in [-1,n+1]), Seek(offset in [-7,n+2], whence in {-1,0,1,2,3})} × EVERY answer of the scripted underlying WriterAt {everything; k<len bytes with an error; k<len bytes without an error, k in {0,1,2}} is executed on a real SectionWriter positioned there by real calls. " +
+		Rule: "E2+E3: for every section (base in {0,5,2^40}, n in 0..4, thorough 0..7) a breadth-first search over the cursor states reachable inside the window [0, n+6] (observed through Seek(0, SeekCurrent)); from EVERY state EVERY operation of the alphabet {Write(len 0..6), WriteAt(len 0..6, off in [-1,n+1]) - the buffer of length 0 in each of 4 forms: nil, non-nil, with spare capacity, empty tail of a longer array -, Seek(offset in [-7,n+2], whence in {-1,0,1,2,3})} × EVERY answer of the scripted underlying WriterAt {everything; k<len bytes with an error; k<len bytes without an error, k in {0,1,2}} is executed on a real SectionWriter positioned there by real calls. " +
 			"Independently every operation sequence of depth ≤3 (thorough ≤4) over a reduced alphabet runs on one object without any state merging (guards against hidden state) - alone and once more with a second SectionWriter over another underlying writer used between the steps (objects must not share state), once more WITHOUT reading the cursor back between the steps (observing it must not be what keeps the writer correct), once more over a SectionWriter stacked on the scripted writer and (fault-free sequences of ≤2 operations) over an *os.File whose content is read back -, and AtToWriter(w, off in {0,5}) runs every sequence of ≤3 Writes × answers. Over a SHORT real SectionWriter (3 bytes at offset 2) as the underlying writer: every section with start in [-2,4] and length 0..5 relative to it (starting before it, ending beyond it, outside it) × every sequence of ≤2 (thorough ≤3) operations of the reduced alphabet; the inner section is modelled by the same statement one level down. Big geometry: sections of length n in {0, 4, 2^31-1, 2^31, 2^31+1, 2^32, 2^32+3, 2^62} × base in {0,5,2^40} from every cursor in {0, 2^31-2, 2^32-2, n-3..n+2}: every Write(len 0..4) / WriteAt(len 0..4, off around n and around 2^31, 2^32) × answer, every Seek(off in [-3,3] ∪ {±n, n±1, 2^31, 2^32, 2^32+1} ∪ {the last positions of int64: MaxInt64-d relative to start / end / cursor, d in {0,1,4,5,6}}), each alone and followed blind by a Write or a relative Seek (a Seek whose target is a valid int64 relative to the section but whose absolute offset base+pos is not representable may be accepted or rejected - the statement leaves it open - and everything after it must follow the answer given). Long buffers: n in {2^16-1, 2^16, 2^16+1} × Write / WriteAt of 2^16-1, 2^16, 2^16+1, 2^17 bytes from cursors {0, 1, n-2^16, n-1, n} × answers {everything; k in {0, 1, 2^16-1, len-1} with / without an error} followed by a 1-byte Write. Oracle: the statement's cursor model — compared are return values (count, error class: nil / ErrShortWrite / the underlying error / some error for rejected Seeks), the exact list of non-empty (offset, bytes) calls the underlying writer received, containment in [base, base+n), the cursor afterwards and Size(). Non-trivial: transitions in which bytes reach the underlying writer or the cursor moves.",
 		Assumptions: []string{
 			"cursors beyond the window n+6 are executed once (as successors) but not expanded",
@@ -209,7 +219,7 @@ func (m *c18Model) under(p []byte, off int64, a c18Ans) (int, bool) {
 func (m *c18Model) step(op c18Op, salt int) string {
 	switch op.Op {
 	case "write":
-		p := c18Buf(op.Len, salt)
+		p := op.buf(salt)
 		if m.cur >= m.n {
 			return "0,ErrShortWrite"
 		}
@@ -225,7 +235,7 @@ func (m *c18Model) step(op c18Op, salt int) string {
 		}
 		return fmt.Sprintf("%d,%s", k, e)
 	case "writeat":
-		p := c18Buf(op.Len, salt)
+		p := op.buf(salt)
 		if op.Off < 0 || op.Off >= m.n {
 			return "0,ErrShortWrite"
 		}
@@ -346,10 +356,10 @@ func c18Exec(cs c18Case) (got, want string, moved bool) {
 		var gv string
 		switch op.Op {
 		case "write":
-			n, err := w.Write(c18Buf(op.Len, i))
+			n, err := w.Write(op.buf(i))
 			gv = fmt.Sprintf("%d,%s", n, errClass(err))
 		case "writeat":
-			n, err := sw.WriteAt(c18Buf(op.Len, i), op.Off)
+			n, err := sw.WriteAt(op.buf(i), op.Off)
 			gv = fmt.Sprintf("%d,%s", n, errClass(err))
 		case "seek":
 			pos, err := sw.Seek(op.Off, op.Whence)
@@ -477,6 +487,15 @@ func c18Alphabet(n int64) []c18Op {
 				ops = append(ops, c18Op{Op: "writeat", Len: l, Off: off, Ans: a})
 			}
 		}
+		if l == 0 {
+			// the empty buffer in the other forms a caller can hand it over (form 0, above, is nil)
+			for f := 1; f < gen.EmptyForms; f++ {
+				ops = append(ops, c18Op{Op: "write", Form: f, Ans: c18Ans{Full: true}})
+				for off := int64(-1); off <= n+1; off++ {
+					ops = append(ops, c18Op{Op: "writeat", Off: off, Form: f, Ans: c18Ans{Full: true}})
+				}
+			}
+		}
 	}
 	for _, wh := range []int{-1, 0, 1, 2, 3} {
 		for off := int64(-7); off <= n+2; off++ {
@@ -497,6 +516,7 @@ func c18Reduced(n int64) []c18Op {
 			ops = append(ops, c18Op{Op: "write", Len: l, Ans: a})
 		}
 	}
+	ops = append(ops, c18Op{Op: "write", Form: 1, Ans: c18Ans{Full: true}}, c18Op{Op: "writeat", Off: n, Ans: c18Ans{Full: true}}, c18Op{Op: "writeat", Off: n, Form: 2, Ans: c18Ans{Full: true}})
 	// more fault shapes on the longer write: nothing accepted with / without an error, two bytes and an error
 	for _, a := range []c18Ans{{K: 0, Err: true}, {K: 0, Err: false}, {K: 2, Err: true}} {
 		ops = append(ops, c18Op{Op: "write", Len: 3, Ans: a})
